@@ -347,7 +347,12 @@ class Nodes:
         Returns: (ScalarNode) The new node
         """
         minus_sign = "-" if value < 0.0 else None
-        strval = format(value, '.15f').rstrip('0').rstrip('.')
+        strval = format(value, '.15f').rstrip('0')
+        if strval.endswith('.'):
+            # Keep one fractional digit; ruamel.yaml reads a precision of 0
+            # as "the number starts with its dot" and would emit 1000.0 as
+            # 100.000 and 1.0 as the unloadable !!float '1'.
+            strval += '0'
         precision = 0
         width = len(strval)
         lastdot = strval.rfind(".")
